@@ -102,7 +102,8 @@ def run(ctx):
                     yield ("wide", {"t": t, "b": rng.randbytes(n).hex()})
         # text: ASCII strings of every shape through the variable-length text type
         for txt in ("", "A", "hello world", "C:\\temp\\x64\\out", "[\\x20-\\x7e]+", "\\x41\\x42", "100% {ok} 'q' \"d\"", "\\\\", "\\n\\t\\r", "\\u0041\\N{DASH}",
-                    "b'\\x00'", "%s %d {0}", "tab\there", " lead and trail ", "~" * 300):
+                    "b'\\x00'", "%s %d {0}", "tab\there", " lead and trail ", "~" * 300,
+                    "ANTSTATUS=OK\r\n", "\r\n", "x\n", "x\r", "\r\nx", "a\r\n\r\n", " \t ", "trailing spaces   ", "\x00pad\x00\x00"):
             yield ("text", {"t": "CH", "b": txt.encode("ascii").hex()})
         for _ in range(400 if big else 60):
             n = rng.randrange(1, 40)
